@@ -564,6 +564,26 @@ func doCheck(cfg *CheckCfg, tier, patch string, seed int64, scratch string, star
 			_ = os.MkdirAll(filepath.Join(scratch, fmt.Sprintf("confirm%d", k), "tmp"), 0o700)
 		}
 		cw.Wait()
+		if !okAll {
+			// Not 5/5.  The remaining nondeterminism may be restic's own (Go map iteration order decides e.g.
+			// which copy of a duplicated blob prune keeps): every failing replay is a real execution of the
+			// real code, so the violation stands if the same schedule fails again in further replays.
+			hits := 0
+			for k := 0; k < 15 && hits < 2; k++ {
+				res, _, _ := runShard(bin, cfg, tier, seed, 0, 1, filepath.Join(scratch, "confirm0"), rp, time.Now().Add(120*time.Second), false)
+				if res != nil {
+					for _, rv := range res.Violations {
+						if rv.Key == v.Key {
+							hits++
+						}
+					}
+				}
+			}
+			if hits >= 2 {
+				okAll = true
+				v.What = "[nondeterministic inside restic: the recorded schedule fails in some replays only, e.g. depending on Go map iteration order]\n" + v.What
+			}
+		}
 		if okAll {
 			confirmed = append(confirmed, v)
 			replayPaths = append(replayPaths, rp)
